@@ -35,6 +35,7 @@ type inflight struct {
 	dirSt   nfsv4.Nfsstat4
 	leaf    *mLeaf
 	created bool
+	reclaim bool // CLAIM_PREVIOUS
 	bits    uint32
 
 	of      *mOF
@@ -397,6 +398,38 @@ func (m *model) runOpen(f *inflight) outcome {
 			default:
 				return m.finishOpenErr(f, nfsv4.NFS4ERR_INVAL, "invalid share_deny")
 			}
+			switch op.Claim {
+			case "delegate_cur":
+				return m.finishOpenErr(f, nfsv4.NFS4ERR_RECLAIM_BAD, "no delegations are ever handed out")
+			case "delegate_prev":
+				return m.finishOpenErr(f, nfsv4.NFS4ERR_NOTSUPP, "CLAIM_DELEGATE_PREV is not supported")
+			case "previous", "previous_deleg":
+				if f.fh.kind == "none" {
+					return m.finishOpenErr(f, nfsv4.NFS4ERR_NOFILEHANDLE, "no current file handle")
+				}
+				if f.fh.isDir() {
+					return m.finishOpenErr(f, nfsv4.NFS4ERR_ISDIR, "current file handle is a directory")
+				}
+				if oo.files[f.fh.leaf] == nil || op.Claim == "previous_deleg" {
+					return m.finishOpenErr(f, nfsv4.NFS4ERR_RECLAIM_BAD, "the open-owner has no open state for this file (or claims a delegation)")
+				}
+				switch op.How {
+				case "guarded", "guarded_size3", "exclusive":
+					return m.finishOpenErr(f, nfsv4.NFS4ERR_EXIST, "guarded create of an existing file")
+				case "unchecked_trunc":
+					f.fh.leaf.data = nil
+				}
+				f.leaf, f.reclaim = f.fh.leaf, true
+				if f.bits&accRead != 0 {
+					f.leaf.pendingOpen[bitRead]++
+				}
+				if f.bits&accWrite != 0 {
+					f.leaf.pendingOpen[bitWrite]++
+				}
+				m.mark("open_claim_previous")
+				m.sweep()
+				return m.finishOpenOK(f)
+			}
 			if f.fh.kind == "none" {
 				return m.finishOpenErr(f, nfsv4.NFS4ERR_NOFILEHANDLE, "no current file handle")
 			}
@@ -509,7 +542,7 @@ func (m *model) finishOpenOK(f *inflight) outcome {
 
 	o := f.fin(ok, "open succeeds")
 	o.sts = append(o.sts, ok) // GETFH
-	created, how := f.created, op.How
+	created, how, reclaim := f.created, op.How, f.reclaim
 	o.checks = append(o.checks, check{"C18", func(res *nfsv4.Compound4res) error {
 		r, isOK := mainRes(f, res).(*nfsv4.NfsResop4_OP_OPEN).Opopen.(*nfsv4.Open4res_NFS4_OK)
 		if !isOK {
@@ -541,7 +574,11 @@ func (m *model) finishOpenOK(f *inflight) outcome {
 		if r.Resok4.Rflags != wantFlags {
 			return fmt.Errorf("OPEN rflags=%#x, expected %#x (needs OPEN_CONFIRM=%v)", r.Resok4.Rflags, wantFlags, needConfirm)
 		}
-		if !r.Resok4.Cinfo.Atomic || (r.Resok4.Cinfo.Before != r.Resok4.Cinfo.After) != created {
+		if reclaim {
+			if r.Resok4.Cinfo.Before != r.Resok4.Cinfo.After {
+				return fmt.Errorf("reclaim OPEN reports a directory change %+v", r.Resok4.Cinfo)
+			}
+		} else if !r.Resok4.Cinfo.Atomic || (r.Resok4.Cinfo.Before != r.Resok4.Cinfo.After) != created {
 			return fmt.Errorf("OPEN change info %+v, file created=%v", r.Resok4.Cinfo, created)
 		}
 		wantSize := false
